@@ -35,8 +35,7 @@ Proof. exact find_fn_end. Qed.
    stack discipline of KnownF6 (entries of outer activations belong to functions the current one
    cannot be reached from), completeness of the bounded reachability of [known_f6]
    (FlowFnReach.reach_complete).
-   NOT covered by a theorem: calls in condition position (C05_cond; model FlowFnC.v, spec
-   FlowFnCTree.v, correspondence run only). *)
+   Calls in condition position: C05_sim_cond below (model FlowFnC.v, spec FlowFnCTree.v). *)
 Theorem C05_sim : forall p, tables_wf = true -> wf_prog p = true -> known_f6 p = false ->
   forall n w w', prog_run n p w = FOk w' ->
   exists fuel f' g', (forall k, fuel <= k -> frun_program k (compile_prog p) w = FDone (w', f', g')) /\
@@ -74,3 +73,74 @@ Theorem C05_F6_refuted_recursion :
   (exists l s, frun_program 200 (compile_prog f6_recursion) (mkW [(s_c, [84%N])] [] [] 0%N)
                = FStopped l (RError 5%N) s).
 Proof. exact f6_refuted_recursion. Qed.
+
+(* ---- calls in CONDITION position (`if f a b`, `elseif f`, `while f`, `not f`, f a user function) ----
+   Model: DS.FlowFnC ([crun_program]: the machine of FlowFn.v + utils/condition.rs::eval_condition for
+   a condition whose first token is a user function = utils/eval.rs::eval_with_instructions /
+   eval_instructions, the nested mini-runner: the call is appended behind the program as an extra
+   instruction, the callee's body runs under the nested loop until the line counter leaves the
+   program; Error / Crash end the nested loop; a GoTo result does not touch the instruction's output
+   variable, so a call `r = g x` made under the nested loop does not remove r at call time).
+   Spec: DS.FlowFnCTree ([cprog_run]: a condition `f a b` runs the body of f like a call without
+   output variable and is truthy iff the returned value is; the flag [em] = "under a
+   condition-position call" marks the one place where the spec follows the implementation in the
+   corner the property leaves open: `w3 := if em then w2 else clear_out out w2` in [xcall] — the
+   output variable of a call made under a condition-position activation is not removed at call
+   time, hence still holds its old value if the callee ends without `return`).
+
+   C05_sim_cond: for EVERY well-formed program of the extended syntax outside KnownF6 (the
+   reachability of [cknown_f6] counts condition-position calls) — calls in statement position and in
+   condition position of if / elseif / while, under `not`, in main, inside functions, inside
+   functions that are themselves evaluated in condition position, recursion through
+   condition-position calls included — whatever the tree-walking interpreter computes, the flat
+   machine computes on the compiled program for every sufficiently large fuel of the main loop (k)
+   and of the condition evaluations (e): it runs past the last line in exactly that world, with
+   the for-in stack, the function call stack and the scope stack empty.
+   Proof (FlowFnCErase / FlowFnCRuns / FlowFnCSim / FlowFnCThms): the frame statement of C05_sim
+   (site-based junk, for-in discipline) proved for both loops at once (mode flag), plus a frame
+   statement for condition evaluation; static facts are inherited from the erased program (every
+   non-base condition replaced by a base one: same command names, same lines). *)
+Require Import DS.FlowFnC DS.FlowFnCTree DS.FlowFnCThms.
+Theorem C05_sim_cond : forall p, tables_wf = true -> wf_cprog p = true -> cknown_f6 p = false ->
+  forall n w w', cprog_run n p w = FOk w' ->
+  exists fuel efuel f' g',
+    (forall k e, fuel <= k -> efuel <= e -> crun_program k e (compile_cprog p) w = FDone (w', f', g')) /\
+    f_forstk f' = [] /\ fs_stk g' = [] /\ fs_scopes g' = [].
+Proof. exact cond_sim. Qed.
+Print Assumptions C05_sim_cond.
+
+(* Where the flag [em] of the spec matters (FlowFnCIdeal.v: [iprog_run] = the structured semantics
+   WITHOUT the flag: every call with an output variable removes it at call time, as the main runner
+   does).  C05_cond_em_scope: if no function that can run under a condition-position call contains
+   a call with an output variable ([no_out_under], reachability counts condition-position calls),
+   the spec with the flag IS the flag-free semantics; hence (C05_sim_cond_ideal) on those programs
+   the flat machine simulates the flag-free semantics.  The flag is therefore confined to the
+   output variables of calls made inside a condition-position activation. *)
+Require Import DS.FlowFnCIdeal DS.FlowFnCIdealThms.
+Theorem C05_cond_em_scope : forall p, no_out_under p = true -> forall n w, cprog_run n p w = iprog_run n p w.
+Proof. exact em_scope. Qed.
+Print Assumptions C05_cond_em_scope.
+Theorem C05_sim_cond_ideal : forall p, tables_wf = true -> wf_cprog p = true -> cknown_f6 p = false ->
+  no_out_under p = true ->
+  forall n w w', iprog_run n p w = FOk w' ->
+  exists fuel efuel f' g',
+    (forall k e, fuel <= k -> efuel <= e -> crun_program k e (compile_cprog p) w = FDone (w', f', g')) /\
+    f_forstk f' = [] /\ fs_stk g' = [] /\ fs_scopes g' = [].
+Proof. exact cond_sim_ideal. Qed.
+Print Assumptions C05_sim_cond_ideal.
+(* ... and inside that region the flag is observable beyond [corner_prog] (value-less callees): on
+   `fn g / emit in ${r} / return 1 / end ; fn f / r = g / return ${r} / end ; r = set old ; if f ...`
+   (well-formed, outside KnownF6, corner_prog = false) g's body still sees r = old under the
+   condition-position call of f (spec with flag = flat machine = real SDK: trace `in old`), while
+   the flag-free semantics (and the same call in statement position) gives `in` with r removed.
+   The property text does not say what the output variable holds DURING the call; reported. *)
+Theorem C05_cond_em_witness :
+  wf_cprog em_prog = true /\ cknown_f6 em_prog = false /\ corner_prog em_prog = false /\
+  no_out_under em_prog = false /\
+  exists ws wi ff sf,
+    cprog_run 50 em_prog world0 = FOk ws /\ iprog_run 50 em_prog world0 = FOk wi /\
+    crun_program 200 200 (compile_cprog em_prog) world0 = FDone (ws, ff, sf) /\
+    w_trace ws = [[[102;105;110]; [49]]; [[84]]; [[105;110]; [111;108;100]]]%N /\
+    w_trace wi = [[[102;105;110]; [49]]; [[84]]; [[105;110]; []]]%N.
+Proof. exact em_witness. Qed.
+Print Assumptions C05_cond_em_witness.
